@@ -9,10 +9,16 @@ from .. import rules
 from ..effects import Effects
 from ..model import Model, norm, own_returns
 from ..report import Ob, OK, VIOLATED, ERROR, INFO
-from . import c01
+from . import c01, common
 
 META = {
-    "explanation": "Structural clauses of reshape/permute: (1) DRAIN - the merge/split loop of reshape walks a core cursor and a target "
+    "explanation": "DECIDED BY EVALUATION (E5, ttsa/e5/scenarios8.py): reshape, to_qtt (tensors and square operators) and qtt_to_tens are walked - the real "
+                   "merge/split loops, the constructor, to_tt / mat_to_tt with SVD and QR by their shape laws - on fixed shape pairs (aligned and "
+                   "non-aligned factorisations, singleton modes in front / in the middle / at the end, powers of the mode size); every returning path must "
+                   "produce exactly the requested modes, cores that chain with boundary rank 1, and use every input core (a dropped core loses its "
+                   "sign / phase); shapes with no valid result must raise; one core exchange of permute is evaluated on every path of its branch. "
+                   "The order of the elements inside a re-grouped mode is NOT decided (an index scramble that keeps all shapes is out of reach). "
+                   "STRUCTURAL cross-references: (1) DRAIN - the merge/split loop of reshape walks a core cursor and a target "
                    "cursor; for each exit the other cursor must be drained: when the targets are exhausted the remaining "
                    "(singleton-mode) cores cores[idx:] are contracted into the last new core (they hold a sign/phase), when the "
                    "cores are exhausted the remaining unit targets are appended - for tensors and operators alike; (2) TARGET-MODE - "
@@ -20,8 +26,8 @@ META = {
                    "eps*||S||*d^(-3/2) (<= d(d-1)/2 swaps share eps: exponent of d <= -1), reshape splits at eps/sqrt(dfin-1) and "
                    "rounds once with eps; (4) GAUGE - both start from a right-to-left orthogonalisation of the operand with a fresh "
                    "rank list and never write the operand.",
-    "assumptions": ["the eps bound itself and optimality of ranks are not decided", "to_qtt/qtt_to_tens are covered only by the discipline rules"],
-    "floors": {"EXACT-SPLIT": 2, "E5-CHAIN": 4, "DRAIN": 6, "E4-ALLOWANCE": 2, "E4-EPSFLOW": 2, "GAUGE": 2},
+    "assumptions": ["the eps bound itself and optimality of ranks are not decided", "element order inside a re-grouped mode is not decided (shapes, chaining and provenance are)"],
+    "floors": {"EXACT-SPLIT": 1, "E5-CHAIN": 80, "DRAIN": 6, "E4-ALLOWANCE": 2, "E4-EPSFLOW": 2, "GAUGE": 2},
 }
 ANCHORS = ["_extras.reshape", "_extras.permute", "_tt_base.TT.to_qtt", "_tt_base.TT.qtt_to_tens"]
 
@@ -268,7 +274,16 @@ def check(model: Model, tier: str):
                           f"this split does not receive the caller's rmax (argument: {norm(arg) if arg is not None else 'missing - the callee default applies'}): ranks "
                           "above the callee's default cap are cut although the caller allowed them, and the eps bound is lost"))
     from ..e5 import obligations as e5ob
-    obs += e5ob.for_property(model, "C10", tier)      # the contract of one core exchange of permute, on every path of the branch
+    sem = e5ob.for_property(model, "C10", tier)       # permute: the contract of one core exchange; reshape / to_qtt: walked on fixed factorisations
+    # The termination branches of the merge / split loop (DRAIN) and the divisibility of every split (EXACT-SPLIT) are DECIDED by walking the
+    # real loop on fixed shape pairs - aligned and non-aligned factorisations, singleton modes in front, in the middle and at the end, tensors
+    # and operators; the structural readings of the loop are the cross-reference
+    rs = [o for o in sem if ":reshape" in o.key or o.construct.startswith("reshape")]
+    import re
+    names = {m.group(0) for o in rs for m in [re.match(r"reshape(\.ttm)?:\[[^\]]*\]->\[[^\]]*\]", o.construct)] if m}
+    if len(names) >= 20:
+        common.cross_reference([o for o in obs if o.rule in ("DRAIN", "EXACT-SPLIT")], rs, "reshape is evaluated on fixed shape pairs (ttsa/e5/scenarios8.py)")
+    obs += sem
     from ..adjoint import rule_adjoint, self_fixture
     obs += rule_adjoint(model, [model.func("_extras.permute"), model.func("_extras.reshape")])
     fx = self_fixture()
